@@ -138,7 +138,8 @@ pub fn gen_case<R: Rng>(rng: &mut R, real: bool) -> Case {
         // many loops, so that the adaptation of the step acts many times
         let loops = [1, 2, 3, 5, 10, 50][rng.gen_range(0, 6)];
         sc.cfg.inner_steps = (sc.cfg.steps / loops).max(1);
-        sc.cfg.max_step_size = 10f64.powf(rng.gen_range(-4., 0.));
+        // (down to 1e-8: limits below any internal floor of the adaptation count as well)
+        sc.cfg.max_step_size = 10f64.powf(rng.gen_range(-8., 0.));
         if rng.gen_bool(0.7) {
             sc.cfg.convergence = None;
         }
@@ -147,7 +148,7 @@ pub fn gen_case<R: Rng>(rng: &mut R, real: bool) -> Case {
 }
 
 pub fn run(ctx: &Ctx) {
-    ctx.set_rule("every proposal of optimise_state is measured against every possible current state (trace monitor): its single changed parameter may move by at most max_step_size x half the parameter's range (ranges: the chosen bounds of scripted states; for real hard/LJ states the ranges declared by the property at stage start). Rejection histories are forced by scripts (0/50/75/99/100% rejection per loop, reject runs, alternation, undefined scores), 1..50 inner loops (the step adaptation acts between loops), steps 1e-4..1, k = 1..24 parameters, all temperatures. Non-trivial = runs with >= 3 inner loops; distinct by case");
+    ctx.set_rule("every proposal of optimise_state is measured against every possible current state (trace monitor): its single changed parameter may move by at most max_step_size x half the parameter's range (ranges: the chosen bounds of scripted states; for real hard/LJ states the ranges declared by the property at stage start). Rejection histories are forced by scripts (0/50/75/99/100% rejection per loop, reject runs, alternation, undefined scores), 1..50 inner loops (the step adaptation acts between loops), steps 1e-8..1, k = 1..24 parameters, all temperatures. Non-trivial = runs with >= 3 inner loops; distinct by case");
     let n_s = ctx.tier.pick(70u64, 3_500u64);
     let n_r = ctx.tier.pick(6u64, 250u64);
     let prev = std::panic::take_hook();
